@@ -47,6 +47,66 @@ TRUSTED_EXTRA = [
 ALL = ec.ALL_TOGGLES
 
 
+# ---------------------------------------------------------------- the persist model follows the engine model
+# Model/EnginePersist.lean = Model/Engine.lean's engine functions + a `publish` after each of the four places where
+# the code submits a write batch.  The engine functions are not copied by hand: the text between the markers in
+# EnginePersist.lean is regenerated from Engine.lean before every run, so an edit of the engine model cannot leave the
+# persistence model behind (if an anchor disappears the generation fails loudly).
+import re
+BEGIN = "-- BEGIN GENERATED (tools/props/c07.py gen_persist_model) — do not edit between the markers"
+END = "-- END GENERATED"
+NAMES = ["queryFor", "queryLoop", "repairTfc", "invokeBackwardProjections", "checkCallee", "repairQuery", "runProg",
+         "executeQuery", "userQuery", "session", "round"]
+
+def cut(src, start_pat, end_pat):
+    i = src.index(start_pat)
+    j = src.index(end_pat, i)
+    return src[i:j]
+
+def gen_persist_model(engine=None, target=None):
+    engine = engine or os.path.join(vlib.LEAN, "QbiceVerif", "Model", "Engine.lean")
+    target = target or os.path.join(vlib.LEAN, "QbiceVerif", "Model", "EnginePersist.lean")
+    src = open(engine).read()
+    block = cut(src, "mutual\n", "\nend\n") + "\nend\n"
+    user = cut(src, "/-- `TrackedEngine::query` from the user", "inductive Write")
+    sess = cut(src, "/-- One input session", "-- ------------------------------------------------------------------ specification")
+    txt = block + "\n" + user + sess
+    for n in NAMES:
+        txt = re.sub(r"(?<![\w.`_])" + n + r"\b(?!`)", n + "P", txt)
+    txt = txt.replace("(← get)", "(← getS)").replace("let s ← get\n", "let s ← getS\n")
+    txt = re.sub(r"\bmodify fun s =>", "modifyS fun s =>", txt)
+    txt = re.sub(r"(\s)set \{", r"\1setS {", txt)
+    txt = re.sub(r"\bthrowE\b", "throwP", txt)
+    txt = re.sub(r"(:|→) M (?=[A-Z(])", r"\1 MP ", txt)
+    txt = re.sub(r"\bonPanic\b", "onPanicP", txt)
+    txt = re.sub(r"\) \((undoRegister [^()\n]*|popComputing [^()\n]*)\)", r") (liftE (\1))", txt)
+    def mark(anchor, comment):
+        nonlocal txt
+        n = txt.count(anchor)
+        if n != 1:
+            raise RuntimeError(f"gen_persist_model: publication anchor found {n} times (expected 1): {anchor!r}")
+        indent = re.match(r"\s*", anchor.split("\n")[-2] if anchor.endswith("\n") else anchor).group(0)
+        txt = txt.replace(anchor, anchor + f"{indent}publish   -- {comment}\n")
+    mark("    addBackEdges k comp.order\n", "`set_computed`: submit_write_buffer(tx)")
+    mark("        setNode k { n with tfc := newTfc, lastVerified := (← getS).epoch }\n", "`clean_query`: submit_write_buffer(tx)")
+    mark("    setNode k { n with pendingBP := none }\n", "`done_backward_projection`: submit_write_buffer(tx)")
+    mark("  dirtyPropagate (4 * (← getS).back.length + p.length + 8) batch\n", "`commit_internal`: submit_write_buffer(transaction)")
+    cur = open(target).read()
+    i = cur.index(BEGIN) + len(BEGIN)
+    j = cur.index(END)
+    new = cur[:i] + "\n\n" + txt.rstrip() + "\n\n" + cur[j:]
+    if new != cur:
+        open(target, "w").write(new)
+        return True
+    return False
+
+
+
+def pre(ctx):
+    if gen_persist_model():
+        ctx.notes.append("Model/EnginePersist.lean regenerated from Model/Engine.lean")
+
+
 def run_shard(binpath, mode, seed, tier, n, outdir, replay=None, extra=()):
     os.makedirs(outdir, exist_ok=True)
     for f in ("norestart.txt",):
@@ -117,38 +177,65 @@ def analyse(sh, values_only_after_crash=False):
     return res
 
 
-def model_predicts_restart_effect(ctx, case_text, tag):
-    """For a case where the run WITH restarts differs from the run WITHOUT: does the as-is model predict both runs exactly?"""
+def classify_restart_difference(ctx, case_text, tag):
+    """A case where the run WITH restarts differs from the run WITHOUT (values or executor invocations).
+    Returns (class, explanation):
+      "order-choice"   both runs are exactly what the as-is model predicts under one of its two walk orders of an
+                       unordered set (>= 2 backward projections / firewall callees), and under a FIXED order the model
+                       says the restarts change nothing: the code walked a hash set in another order after reloading it
+                       from the store — the order is not part of any contract;
+      "dirtied-effect" the as-is model predicts both runs exactly and says the restart itself changes the behaviour
+                       (the volatile per-epoch `dirtied_queries` set), AND the run without restarts already violates
+                       the from-scratch oracle (known finding F1/F14 manifested before): finding F20;
+      None             anything else: a violation."""
     d = os.path.join(ctx.work, f"attr-{tag}")
     os.makedirs(d, exist_ok=True)
     rp = os.path.join(d, "case.txt")
     open(rp, "w").write(case_text)
-    binpath = os.path.join(vlib.HARNESS, "target", "release", "persist")
+    binpath = os.environ.get("VERIF_PERSIST_BIN") or os.path.join(vlib.HARNESS, "target", "release", "persist")
     sh = run_shard(binpath, "c07", 0, "quick", None, d, replay=rp)
-    if "error" in sh: return False, sh["error"]
-    ops, impl, asis = sh["ops"], sh["impl"], [ec.strip(l) for l in sh["models"]["asis"]]
-    desc = [ec.strip(l) for l in sh["models"]["desc"]]
-    idx = [i for i in range(len(ops)) if is_op(ops[i])]
-    with_ok = all(impl[i] == asis[i] for i in idx) or all(impl[i] == desc[i] for i in idx)
+    if "error" in sh: return None, sh["error"]
+    ops, impl, exp = sh["ops"], sh["impl"], sh["expect"]
+    mb = {"asis": [ec.strip(l) for l in sh["models"]["asis"]], "desc": [ec.strip(l) for l in sh["models"]["desc"]]}
+    sensitive = any(l.endswith(" ~") for l in sh["models"]["asis"]) or mb["asis"] != mb["desc"]
+    idx = [i for i in range(len(ops)) if ops[i].startswith(("session", "round"))]
     # the run without restarts: strip the restart lines and ask the model again
+    nr = [l for l in ops if l != "restart"]
     nr_ops = os.path.join(d, "ops_norestart.txt")
-    open(nr_ops, "w").write("\n".join(l for l in ops if l != "restart"))
-    outs = {}
+    open(nr_ops, "w").write("\n".join(nr))
+    ma = {}
     for name, args in (("asis", []), ("desc", ["desc"])):
         mp = os.path.join(d, f"model_norestart_{name}.txt")
         rc, err = vlib.run_driver("drv_persist", nr_ops, mp, args)
-        if rc != 0: return False, err
-        outs[name] = [ec.strip(l) for l in open(mp).read().split("\n")]
-    nr = [l for l in ops if l != "restart"]
+        if rc != 0: return None, err
+        ma[name] = [ec.strip(l) for l in open(mp).read().split("\n")]
+        sensitive = sensitive or any(l.endswith(" ~") for l in open(mp).read().split("\n"))
     a_impl = [l.split("\t")[1] for l in open(os.path.join(d, "norestart.txt")).read().split("\n") if "\t" in l]
     k = [i for i in range(len(nr)) if nr[i].startswith(("session", "round"))]
-    without_ok = len(a_impl) == len(k) and (all(outs["asis"][i] == a_impl[j] for j, i in enumerate(k)) or all(outs["desc"][i] == a_impl[j] for j, i in enumerate(k)))
-    return with_ok and without_ok, f"model==impl with restarts: {with_ok}; without: {without_ok}"
+    if len(a_impl) != len(k) or len(k) != len(idx): return None, "the two runs stopped at different operations"
+    b_line = {o: [m[i] for i in idx] for o, m in mb.items()}      # model, with restarts, per op
+    a_line = {o: [m[i] for i in k] for o, m in ma.items()}        # model, without
+    b_impl = [impl[i] for i in idx]
+    b_ok = [o for o in ("asis", "desc") if b_line[o] == b_impl]
+    a_ok = [o for o in ("asis", "desc") if a_line[o] == a_impl]
+    if not b_ok or not a_ok:
+        return None, f"model==impl with restarts: {bool(b_ok)}; without: {bool(a_ok)}"
+    transparent_in_model = all(a_line[o] == b_line[o] for o in ("asis", "desc"))
+    if transparent_in_model:
+        if sensitive: return "order-choice", "under a fixed walk order the model says the restarts change nothing; the two runs match the model's two orders"
+        return None, "model transparent and no order choice point, yet the runs differ"
+    a_bad = any(ec.vals(a_impl[j]) != exp[idx[j]] for j in range(len(idx)))
+    if a_bad:
+        return "dirtied-effect", "the as-is model predicts both runs and the change; the run without restarts already violates the from-scratch oracle (F1/F14)"
+    return None, "the model predicts a restart effect on a history whose run without restarts is correct"
 
 
 def collect(ctx, mode, n_quick, n_thorough, extra=()):
-    ok, out, dt, binpath = vlib.cargo_build("persist")
-    ctx.notes.append(f"cargo build persist {dt:.1f}s")
+    if os.environ.get("VERIF_PERSIST_BIN"):      # sensitivity runs: a harness prebuilt against a private, mutated copy of /repo
+        ok, out, dt, binpath = True, "", 0.0, os.environ["VERIF_PERSIST_BIN"]
+    else:
+        ok, out, dt, binpath = vlib.cargo_build("persist")
+    ctx.notes.append(f"cargo build persist {dt:.1f}s" + (" (VERIF_PERSIST_BIN)" if os.environ.get("VERIF_PERSIST_BIN") else ""))
     res = vlib.Result()
     if not ok:
         res.disagreements.append({"harness-error": "harness build failed:\n" + out[-3000:]})
@@ -191,15 +278,23 @@ def collect(ctx, mode, n_quick, n_thorough, extra=()):
 def run(ctx):
     res, an, reps = collect(ctx, "c07", 110, 2600)
     n_attr = 0
+    seen = {}
     for r in reps:
         for f in r["oracle_failures"]:
             f = dict(f)
-            # the run WITH restarts differs from the run WITHOUT: does the as-is model (volatile `dirtied` set lost at restart) predict exactly that?
-            if f["sig"] in ("C07:value-differs", "C07:exec-differs", "C07:exec-more-after-restart", "C07:exec-reads-differ") and n_attr < 6:
+            key = (f["sig"], f["case"])
+            if key in seen:       # the corpus is replayed by every shard
+                continue
+            seen[key] = True
+            if f["sig"] in ("C07:value-differs", "C07:exec-differs", "C07:exec-more-after-restart", "C07:exec-reads-differ") and n_attr < 24:
                 n_attr += 1
-                okm, why = model_predicts_restart_effect(ctx, f["case"], str(n_attr))
-                if okm: f["sig"] = "C07:restart-effect-predicted-by-model:" + f["sig"].split(":")[1]
+                cls, why = classify_restart_difference(ctx, f["case"], str(n_attr))
                 f["desc"] += f" [{why}]"
+                if cls == "order-choice":
+                    res.distribution["restart_differences_explained_by_set_walk_order"] = res.distribution.get("restart_differences_explained_by_set_walk_order", 0) + 1
+                    continue
+                if cls == "dirtied-effect":
+                    f["sig"] = "C07:F20:restart-resets-dirtied-set-after-F1"
             res.oracle_failures.append(f)
     # from-scratch failures are C01's unless the run without restarts does not have them — then the harness has
     # reported the difference above.  Unexplained ones (no toggle repairs them and the model does not predict them)
